@@ -1027,6 +1027,13 @@ def result_shape(n: GNode) -> str:
     return "list"               # a sequence of values: a list is what it is
 
 
+def _may_repeat(n: GNode) -> bool:
+    core = n
+    while core.kind in ("Optional", "Forward", "Group") and core.action is None and len(core.children) == 1:
+        core = core.children[0]
+    return core.kind in ("ZeroOrMore", "OneOrMore", "DelimitedList") and core.action is None
+
+
 def rule_result_shapes(ctx, rep: Report, rid="G13", min_bindings=20):
     """A results name on an element that has no parse action of its own and is a list container - an alternation of
     node rules `(A.rule ^ B.rule)("base")`, a bare sequence, a repetition - yields pyparsing's list wrapper, not the
@@ -1081,6 +1088,32 @@ def rule_result_shapes(ctx, rep: Report, rid="G13", min_bindings=20):
                             f"`{unparse(argx)}` is the list wrapper pyparsing builds for {nodes[0].describe()} (a named {nodes[0].kind} without a parse action of "
                             f"its own), but {ci.qual}.__init__ uses it as the node itself ({as_value[:2]}): the field holds ParseResults([node]); `.name`, "
                             f"`.namespaces` read off it are '' (unknown names answer ''), isinstance tests on it never hold", where)
+                elif shapes == {"list"} and all(_may_repeat(x) for x in nodes):
+                    # a repetition: however many values were parsed, the constructor has to look at all of them
+                    # `p = p[0]`: from there on the name is one element, not the list
+                    rebinds = [st for st in ast.walk(init) if isinstance(st, ast.Assign) and len(st.targets) == 1 and isinstance(st.targets[0], ast.Name)
+                               and st.targets[0].id == p]
+                    cut = min((st.lineno for st in rebinds), default=None)
+                    live = [u for u in uses if cut is None or u.lineno < cut or any(u in list(ast.walk(st.value)) for st in rebinds if st.lineno == cut)]
+                    whole, first_only = [], []
+                    for u in live:
+                        q = parent(u)
+                        if isinstance(q, ast.Subscript) and q.value is u:
+                            (first_only if not isinstance(q.slice, ast.Slice) else whole).append(f"{p}[{unparse(q.slice)}]")
+                        elif isinstance(q, (ast.For, ast.comprehension)) and q.iter is u:
+                            whole.append(f"for .. in {p}")
+                        elif isinstance(q, ast.Attribute) and q.value is u and q.attr in ("asList", "as_list"):
+                            whole.append(f"{p}.{q.attr}()")
+                        elif isinstance(q, ast.Call) and u in q.args and unparse(q.func) in ("list", "tuple", "iter", "enumerate", "reversed", "sorted"):
+                            whole.append(f"{unparse(q.func)}({p})")
+                    stored = any((isinstance(parent(u), (ast.Assign, ast.Return)) and parent(u).value is u and not (
+                                  isinstance(parent(u), ast.Assign) and isinstance(parent(u).targets[0], ast.Name) and parent(u).targets[0].id == p))
+                                 or (isinstance(parent(u), ast.Call) and u in parent(u).args and unparse(parent(u).func) not in ("isinstance", "len", "bool", "type"))
+                                 or isinstance(parent(u), ast.keyword) for u in live)
+                    ok = bool(whole) or stored or not first_only
+                    rep.add(rid, f"{lab}->{ci.qual}({p}):every value of a repetition is kept", ok,
+                            f"`{unparse(argx)}` holds the values of {nodes[0].describe()} (a {nodes[0].kind}: any number of them), but {ci.qual}.__init__ only "
+                            f"takes {first_only[:1]}: whatever else the text listed is parsed, accepted and dropped without a trace", where, nontrivial=not ok)
                 elif shapes == {"value"}:
                     idx = [t for t in taken_apart if t.startswith(f"{p}[")]
                     guarded = any(isinstance(x, ast.Call) and unparse(x.func) == "isinstance" and x.args and unparse(x.args[0]) == p for x in ast.walk(init))
